@@ -47,6 +47,7 @@ static int rdcsr(CSR* s, int k) {
   return rdi(s->rownnz, s->nr) && rdi(s->rowadr, s->nr) && rdi(s->colind, s->N) && rdd(s->val, s->N);
 }
 
+static mjData* flag_d(mjData* d) { static int t = 0; t ^= 1; return t ? d : NULL; }   // alternate stack / heap scratch
 static mjModel* gm = NULL;
 static mjData* gd = NULL;
 static mjData* get_data(void) {
@@ -200,6 +201,74 @@ int main(void) {
       pri(&tot0, 1); pri(Rnnz, nc);
       int tot1 = mju_sqrMatTDSparseCount(Rnnz, Radr, nc, A.rownnz, A.rowadr, A.colind, Tnnz, Tadr, Tind, Tsup, d, 1);
       pri(&tot1, 1); pri(Rnnz, nc);
+    }
+    else if (!strcmp(op, "addToSparseMat")) {   // n nrow scl dnnz snnz dind[] sind[] dst[nrow*dnnz] src[nrow*snnz]
+      int nrow, dn, sn; mjtNum scl;
+      if (scanf("%d %d", &n, &nrow) != 2 || !rdd(&scl, 1) || scanf("%d %d", &dn, &sn) != 2 || !rdi(ibuf[0], dn) || !rdi(ibuf[1], sn) ||
+          !rdd(dbuf[0], nrow*dn) || !rdd(dbuf[1], nrow*sn)) return 2;
+      int nnz = mju_addToSparseMat(dbuf[0], dbuf[1], n, nrow, scl, dn, sn, ibuf[0], ibuf[1], dbuf[2], ibuf[2]);
+      pri(&nnz, 1); pri(ibuf[0], nnz); prd(dbuf[0], nrow*nnz);
+    } else if (!strcmp(op, "addChains")) {      // n n1 n2 c1[] c2[]
+      int n1, n2;
+      if (scanf("%d %d %d", &n, &n1, &n2) != 3 || !rdi(ibuf[0], n1) || !rdi(ibuf[1], n2)) return 2;
+      int NV = mju_addChains(ibuf[2], n, n1, n2, ibuf[0], ibuf[1]); pri(&NV, 1); pri(ibuf[2], NV);
+      int NM = mj_mergeSorted(ibuf[3], ibuf[0], n1, ibuf[1], n2); pri(&NM, 1); pri(ibuf[3], NM);
+    } else if (!strcmp(op, "inc")) {            // a b n dnnz snnz dind[] dval[] sind[] sval[]
+      mjtNum ab[2]; int dn, sn;
+      if (!rdd(ab, 2) || scanf("%d %d %d", &n, &dn, &sn) != 3 || !rdi(ibuf[0], dn) || !rdd(dbuf[0], dn) || !rdi(ibuf[1], sn) || !rdd(dbuf[1], sn)) return 2;
+      mju_copy(dbuf[2], dbuf[0], dn);
+      mju_combineSparseInc(dbuf[2], dbuf[1], n, ab[0], ab[1], dn, sn, ibuf[0], ibuf[1]); prd(dbuf[2], dn);
+      mju_copy(dbuf[2], dbuf[0], dn);
+      mju_addToSclSparseInc(dbuf[2], dbuf[1], dn, ibuf[0], sn, ibuf[1], ab[1]); prd(dbuf[2], dn);
+    } else if (!strcmp(op, "copyzero")) {       // CSR init[N] nsel sel[nsel]
+      int nsel;
+      if (!rdcsr(&A, 0) || !rdd(dbuf[8], A.N) || scanf("%d", &nsel) != 1 || !rdi(ibuf[9], nsel)) return 2;
+      mju_copy(dbuf[9], dbuf[8], A.N);
+      mju_copySparse(dbuf[9], A.val, A.rownnz, A.rowadr, ibuf[9], nsel); prd(dbuf[9], A.N);
+      mju_copy(dbuf[9], dbuf[8], A.N);
+      mju_zeroSparse(dbuf[9], A.rownnz, A.rowadr, ibuf[9], nsel); prd(dbuf[9], A.N);
+    } else if (!strcmp(op, "blockdiag")) {      // nr nc nb ncres perm_r[nr] perm_c[nc] bnr[nb] bnc[nb] br[nb] bc[nb] mat[nr*nc]
+      int nr, nc, nb, ncres;
+      if (scanf("%d %d %d %d", &nr, &nc, &nb, &ncres) != 4 || !rdi(ibuf[0], nr) || !rdi(ibuf[1], nc) || !rdi(ibuf[2], nb) || !rdi(ibuf[3], nb) ||
+          !rdi(ibuf[4], nb) || !rdi(ibuf[5], nb) || !rdd(dbuf[0], nr*nc)) return 2;
+      for (int i = 0; i < ncres*nr; i++) dbuf[1][i] = -77;
+      mju_blockDiag(dbuf[1], dbuf[0], nc, ncres, nb, ibuf[0], ibuf[1], ibuf[2], ibuf[3], ibuf[4], ibuf[5]); prd(dbuf[1], ncres*nr);
+    } else if (!strcmp(op, "blockdiagsp")) {    // CSR nb perm_r[nr] permc_fwd[nc] br[nb] bc[nb]  (second value array = 2*val)
+      int nb;
+      if (!rdcsr(&A, 0) || scanf("%d", &nb) != 1 || !rdi(ibuf[9], A.nr) || !rdi(ibuf[10], A.nc) || !rdi(ibuf[11], nb) || !rdi(ibuf[12], nb)) return 2;
+      for (int i = 0; i < A.N; i++) dbuf[8][i] = 2*A.val[i];
+      mju_blockDiagSparse(dbuf[9], ibuf[6], ibuf[7], ibuf[8], A.val, A.rownnz, A.rowadr, A.colind, A.nr, nb,
+                          ibuf[9], ibuf[10], ibuf[11], ibuf[12], dbuf[10], dbuf[8]);
+      int tot = A.nr ? ibuf[7][A.nr-1] + ibuf[6][A.nr-1] : 0;
+      pri(ibuf[6], A.nr); pri(ibuf[7], A.nr); pri(ibuf[8], tot); prd(dbuf[9], tot); prd(dbuf[10], tot);
+    } else if (!strcmp(op, "maps")) {           // CSR res, CSR src : mju_sparseMap (pattern(res) subset of pattern(src), sorted)
+      if (!rdcsr(&A, 0) || !rdcsr(&B, 1)) return 2;
+      for (int i = 0; i < A.N; i++) ibuf[9][i] = -5;
+      mju_sparseMap(ibuf[9], A.nr, A.rowadr, A.rownnz, A.colind, B.rowadr, B.rownnz, B.colind); pri(ibuf[9], A.N);
+    } else if (!strcmp(op, "symmap")) {         // CSR res (symmetric pattern, compact), CSR src (lower, sorted): mju_lower2SymMap
+      if (!rdcsr(&A, 0) || !rdcsr(&B, 1)) return 2;
+      mju_lower2SymMap(ibuf[9], A.nr, A.rowadr, A.rownnz, A.colind, B.rowadr, B.rownnz, B.colind, ibuf[10]); pri(ibuf[9], A.N);
+    } else if (!strcmp(op, "cholsym")) {        // CSR H (full symmetric SPD, sorted, compact) mindiag
+      mjtNum mind;
+      if (!rdcsr(&A, 0) || !rdd(&mind, 1)) return 2;
+      mjData* d = get_data(); if (!d) return 3;
+      n = A.nr;
+      int *Lnnz = ibuf[6], *Ladr = ibuf[7], *Lind = ibuf[8], *Tnnz = ibuf[9], *Tadr = ibuf[10], *Tind = ibuf[11], *Tmap = ibuf[12];
+      int nnz = mju_cholFactorSymbolic(NULL, Lnnz, Ladr, NULL, Tnnz, Tadr, NULL, A.rownnz, A.rowadr, A.colind, n, flag_d(d));
+      if (nnz > MAXI) return 2;
+      int nnz2 = mju_cholFactorSymbolic(Lind, Lnnz, Ladr, Tind, Tnnz, Tadr, Tmap, A.rownnz, A.rowadr, A.colind, n, NULL);
+      (void)nnz2;
+      for (int i = 0; i < nnz; i++) dbuf[9][i] = 0;
+      int rank = mju_cholFactorNumeric(dbuf[9], n, mind, Lnnz, Ladr, Lind, Tnnz, Tadr, Tind, Tmap, A.val, A.rownnz, A.rowadr, A.colind, d);
+      pri(&rank, 1); pri(&nnz, 1); pri(Lnnz, n); pri(Ladr, n); pri(Lind, nnz);
+      mju_sparse2dense(dbuf[10], dbuf[9], n, n, Lnnz, Ladr, Lind); prd(dbuf[10], n*n);
+      // LT structure must be the transpose of L and LT_map must point at the matching L entries
+      int okT = 1;
+      for (int r = 0; r < n; r++) for (int k = 0; k < Tnnz[r]; k++) {
+        int c = Tind[Tadr[r]+k], li = Tmap[Tadr[r]+k];
+        if (c < 0 || c >= n || li < Ladr[c] || li >= Ladr[c] + Lnnz[c] || Lind[li] != r) okT = 0;
+      }
+      pri(&okT, 1); pri(Tnnz, n);
     }
     // ------------------------------------------------------------------ band
     else if (!strcmp(op, "band2dense")) {    // ntotal nband ndense sym band[nB]
